@@ -8,6 +8,7 @@ import (
 	"path/filepath"
 	"sort"
 	"strings"
+	"sync"
 
 	"golang.org/x/tools/go/packages"
 	"golang.org/x/tools/go/ssa"
@@ -16,6 +17,8 @@ import (
 
 // World is the loaded program plus all contracts.
 type World struct {
+	boundMu  sync.Mutex
+	boundIdx map[*types.Func]*ssa.Function
 	RepoDir  string
 	SpecDir  string
 	Fset     *token.FileSet
@@ -616,4 +619,32 @@ func (w *World) allNamedTypes() []types.Type {
 	sort.Slice(out, func(i, j int) bool { return typeName(out[i]) < typeName(out[j]) })
 	w.namedTypes = out
 	return out
+}
+
+// boundWrapper finds the SSA bound-method wrapper (the code of a method value x.m)
+// for method m of type t; nil when no such method value is created anywhere.
+func (w *World) boundWrapper(t types.Type, m string) *ssa.Function {
+	w.boundMu.Lock()
+	defer w.boundMu.Unlock()
+	if w.boundIdx == nil {
+		w.boundIdx = map[*types.Func]*ssa.Function{}
+		for fn := range ssautil.AllFunctions(w.Prog) {
+			if strings.HasPrefix(fn.Synthetic, "bound method wrapper") {
+				if o, ok := fn.Object().(*types.Func); ok {
+					w.boundIdx[o] = fn
+				}
+			}
+		}
+	}
+	for _, tt := range []types.Type{t, types.NewPointer(t)} {
+		ms := types.NewMethodSet(tt)
+		for i := 0; i < ms.Len(); i++ {
+			if f, ok := ms.At(i).Obj().(*types.Func); ok && f.Name() == m {
+				if bw := w.boundIdx[f]; bw != nil {
+					return bw
+				}
+			}
+		}
+	}
+	return nil
 }
